@@ -51,6 +51,35 @@ func (w *World) VerifyFunc(c *Contract, prop string) (*Unit, error) {
 		}
 		u.assume("true", t)
 	}
+	// frame of the function under contract
+	if as := c.ClausesOf("assigns"); len(as) > 0 || c.Flags["pure"] {
+		fs := &frameSpec{top0: top0}
+		for _, cl := range as {
+			for _, item := range splitTop(cl.Text, ',') {
+				item = strings.TrimSpace(item)
+				switch {
+				case item == `\nothing`, item == `\fresh`, item == "":
+				case item == `\all`:
+					fs.all = true
+				case strings.HasPrefix(item, `\after(`):
+					av, err := env.eval(strings.TrimSuffix(strings.TrimPrefix(item, `\after(`), ")"))
+					if err != nil {
+						w.fail("%s:%d: assigns: %v", cl.File, cl.Line, err)
+						continue
+					}
+					fs.afters = append(fs.afters, refOf(u, av))
+				default:
+					l, err := env.evalLoc(item)
+					if err != nil {
+						w.fail("%s:%d: assigns: %v", cl.File, cl.Line, err)
+						continue
+					}
+					fs.locs = append(fs.locs, l)
+				}
+			}
+		}
+		f.frame = fs
+	}
 	o := u.oblige("cover", f.fname, "true", "true", c.File+":"+fmt.Sprint(c.Line), "preconditions satisfiable")
 	o.Cover = true
 	f.run(heap, "true")
